@@ -114,3 +114,33 @@ Theorem C02_loop_post_declaring_rejected : forall f G u init cond x e body rest 
   trl f G u (LCons (LFor init cond (Some (SDefine x e)) body) rest) k = None.
 Proof. exact rejects_declaring_post. Qed.
 Print Assumptions C02_loop_post_declaring_rejected.
+
+(* Packages with calls (Tr/MiniGoC.v): every package is refused by the model
+   or translated faithfully - every function of it, for every argument vector
+   on which Go returns, through any depth of calls and recursion. *)
+From GV Require Import Tr.MiniGoC Tr.MiniGoCProofs.
+
+Theorem C02_calls_rejected_or_faithful : forall P,
+  trc_prog P = None \/
+  exists vs, trc_prog P = Some vs /\
+    Forall2 (fun fn F => forall n args v s,
+               length args = length (cf_params fn) ->
+               cgo_body n P (rev (combine (cf_params fn) args)) (cf_body fn) = Some v ->
+               exists m, eval m (call_expr F args) s = RVal v s) P vs.
+Proof. exact prog_rejected_or_faithful. Qed.
+Print Assumptions C02_calls_rejected_or_faithful.
+
+(* a parameter with the name of its function is refused, whatever the body and
+   the other parameters (GooseLang's beta rule substitutes the recursion binder
+   first: the name would denote the function; goose reports it as unsupported
+   since the fix: commit, and the negative packages of profile minigoc check
+   that the real goose and the model both refuse) *)
+Theorem C02_parameter_named_like_its_function_rejected : forall T name ps1 ps2 body,
+  trc_func T {| cf_name := name; cf_params := ps1 ++ name :: ps2; cf_body := body |} = None.
+Proof. exact rejects_param_named_like_function. Qed.
+Print Assumptions C02_parameter_named_like_its_function_rejected.
+
+Theorem C02_call_of_a_function_not_yet_emitted_rejected : forall T self G f args,
+  String.eqb f self = false -> flookup f T = None -> trc_expr T self G (CCall f args) = None.
+Proof. exact rejects_call_of_unknown_function. Qed.
+Print Assumptions C02_call_of_a_function_not_yet_emitted_rejected.
